@@ -260,6 +260,31 @@ func init() {
 		}
 		return false
 	})
+	reg("OKind", func(fr *frame, a []value) value {
+		r := fr.i.x.s2results[a[0].(int)]
+		v, _, ok := fr.i.navigate(*r.Recv, r.RecvType, a[1].(string))
+		if !ok {
+			return 0
+		}
+		it, isI := v.(iface)
+		if !isI {
+			return 4
+		}
+		if it.t == nil {
+			return 0
+		}
+		if b, ok := it.t.Underlying().(*types.Basic); ok {
+			switch {
+			case b.Kind() == types.Bool:
+				return 1
+			case b.Info()&types.IsNumeric != 0:
+				return 2
+			case b.Kind() == types.String:
+				return 3
+			}
+		}
+		return 4
+	})
 	reg("OInt", func(fr *frame, a []value) value { return fr.i.outScalar(a, sBV) })
 	reg("OFloat", func(fr *frame, a []value) value { return fr.i.outScalar(a, sF64) })
 	reg("OStr", func(fr *frame, a []value) value { return fr.i.outScalar(a, sStr) })
